@@ -1,7 +1,5 @@
 use crate::Point;
-use parry2d::{
-    bounding_volume::Aabb, math::Isometry, query::PointQuery, shape::Triangle,
-};
+use parry2d::{bounding_volume::Aabb, math::Isometry, query::PointQuery};
 use std::cmp::Ordering;
 
 pub fn opt_ord(f1: Option<f32>, f2: Option<f32>) -> Ordering {
@@ -77,9 +75,13 @@ pub fn clip_line(
 
 /// the threshold are of 0.01 is used since
 /// lines may not be very aligned.
+///
+/// The area is computed with the shoelace formula: unlike a formula based on the
+/// side lengths (which need a square root each) it is exact for points on the cell grid,
+/// so long collinear runs are still recognized as collinear.
 pub fn is_collinear(a: &Point, b: &Point, c: &Point) -> bool {
-    use std::ops::Deref;
-    Triangle::new(*a.deref(), *b.deref(), *c.deref()).area() < 0.01
+    let area2 = (b.x - a.x) * (c.y - a.y) - (b.y - a.y) * (c.x - a.x);
+    (area2 / 2.0).abs() < 0.01
 }
 
 pub fn pad(v: f32) -> f32 {
